@@ -117,6 +117,10 @@ def jobs(pid, tier):
                 'compose', 'rename', 'cube', 'var', 'add_expr']
         J.append(Job('dynreorder', dict(N=3, L=2, fires=1, permute=True, ops=deco if q else None),
                      need_outcomes=['fired:ite', 'fired:apply_forall', 'fired:rename']))
+        # the reorder contract's clauses (collection and swaps leave held nodes, counts and a sound
+        # result cache) discharged on the real collect_garbage / swap
+        J.append(Job('k8_gc', dict(N=4, L=2, roots=0, nondet=True), need_outcomes=['collected', 'nothing_to_collect']))
+        J.append(Job('k7_swap', dict(N=4, L=2, x=0, K=2), need_outcomes=['swapped']))
     if pid == 'C10':
         J.append(Job('sat', dict(N=4, L=2), need_outcomes=['returned:' + e for e in
                      ('support', 'essential', 'count', 'pick_iter', 'pick')]))
